@@ -251,6 +251,8 @@ PROP_GEN = {
             "main_deps": ["Minimizer.vo", "GenBase.vo"], "main_cone": ["Minimizer.v", "GenBase.v"]},
     "C19": {"modules": ["BfsQueueGen"], "files": ["GenLinkBfsQueue.v", "GenPropsBfsQueue.v", "C19g.v"],
             "main_deps": ["GenBase.vo"], "main_cone": ["GenBase.v"]},
+    "C16": {"modules": ["InclusionGen"], "files": ["GenLinkInclusion.v", "GenPropsInclusion.v", "C16g.v"],
+            "main_deps": ["InclusionProofs.vo", "GenBase.vo"], "main_cone": ["InclusionProofs.v", "GenBase.v"]},
     "C13": {"modules": ["BuilderGen"], "files": ["GenLinkBuilder.v", "GenPropsBuilder.v", "C13g.v"],
             "main_deps": ["BuilderProofs.vo", "GenBase.vo"], "main_cone": ["BuilderProofs.v", "GenBase.v"]},
     "C15": {"modules": ["LoopRangeGen"], "files": ["GenLinkLoopRange.v", "GenPropsLoopRange.v", "C15g.v"],
@@ -278,7 +280,7 @@ PROP_GEN = {
 # model the property's theorems speak about is no longer the code.
 _REGEX_SUPPORT = ["C20", "C11", "C12", "C15"]
 SUPPORT_GEN = {
-    "C01": _REGEX_SUPPORT + ["C03"], "C02": _REGEX_SUPPORT + ["C03", "C13", "C19"], "C03": _REGEX_SUPPORT, "C05": _REGEX_SUPPORT + ["C03", "C19"],
+    "C01": _REGEX_SUPPORT + ["C03", "C16"], "C02": _REGEX_SUPPORT + ["C03", "C13", "C19"], "C03": _REGEX_SUPPORT, "C05": _REGEX_SUPPORT + ["C03", "C19"],
     "C07": _REGEX_SUPPORT + ["C03", "C19"], "C10": _REGEX_SUPPORT + ["C03"], "C16": _REGEX_SUPPORT + ["C03"], "C18": _REGEX_SUPPORT + ["C03"],
     "C19": _REGEX_SUPPORT + ["C03", "C13", "C02"],
     "C04": ["C20", "C11", "C12", "C14", "C13", "C02"], "C13": ["C20", "C11", "C12", "C02"], "C14": ["C20", "C11", "C12", "C13", "C02", "C19"],
